@@ -62,9 +62,9 @@ class Sized:
 
 
 class Obj:
-    def __init__(self, _objname, **attrs):
-        self.name = _objname
-        self.attrs = dict(attrs)
+    def __init__(_self, _objname, **attrs):
+        _self.name = _objname
+        _self.attrs = dict(attrs)
 
     def __repr__(self):
         return "<%s>" % self.name
@@ -116,7 +116,7 @@ OPAQUE_PREDICATES = {"isinstance", "issubclass", "_is_number", "hasattr"}
 class Interp:
     def __init__(self, hier: Hierarchy, dyn: Optional[str] = None,
                  inline: Callable[[str], bool] = lambda m: False,
-                 self_obj: Optional[Obj] = None, max_steps=20000, call_hook=None):
+                 self_obj: Optional[Obj] = None, max_steps=20000, call_hook=None, globals=None):
         self.hier = hier
         self.dyn = dyn
         self.inline = inline
@@ -130,6 +130,7 @@ class Interp:
         # call_hook(name_text, args, kwargs) -> value, or NotImplemented to fall through
         self.call_hook = call_hook
         self.trace: List[str] = []
+        self.globals = dict(globals or {})      # abstract values of module-level names
 
     # ------------------------------------------------------------ driver
     def run_all(self, f: Func, args: Dict[str, Any]) -> List[Outcome]:
@@ -258,6 +259,26 @@ class Interp:
                 if item.optional_vars is not None:
                     self.assign(item.optional_vars, v, env, f)
             self.exec_block(st.body, env, f)
+        elif isinstance(st, ast.Try):
+            # abstract runs raise only through explicit `raise`; handlers that name
+            # the raised exception class (or catch everything) take over
+            try:
+                self.exec_block(st.body, env, f)
+            except _Raise as r:
+                for h in st.handlers:
+                    names = [] if h.type is None else ([norm(x) for x in h.type.elts] if isinstance(h.type, ast.Tuple) else [norm(h.type)])
+                    if h.type is None or r.what in names or "Exception" in names or "BaseException" in names:
+                        try:
+                            self.exec_block(h.body, env, f)
+                        finally:
+                            pass
+                        break
+                else:
+                    self.exec_block(st.finalbody, env, f)
+                    raise
+            else:
+                self.exec_block(st.orelse, env, f)
+            self.exec_block(st.finalbody, env, f)
         elif isinstance(st, ast.AugAssign):
             cur = self.eval(st.target, env, f)
             v = self.eval(st.value, env, f)
@@ -382,6 +403,8 @@ class Interp:
                 return env[e.id]
             if e.id in ("None", "True", "False"):
                 return {"None": None, "True": True, "False": False}[e.id]
+            if e.id in self.globals:
+                return self.globals[e.id]
             return TOP
         if isinstance(e, ast.Attribute):
             base = self.eval(e.value, env, f)
@@ -461,26 +484,53 @@ class Interp:
             return self.eval_call(e, env, f)
         if isinstance(e, ast.Lambda):
             return TOP
-        if isinstance(e, (ast.ListComp, ast.GeneratorExp)) and len(e.generators) == 1:
-            g = e.generators[0]
-            it = self.eval(g.iter, env, f)
-            if isinstance(it, dict):
-                it = list(it)
-            if not isinstance(it, (list, tuple)):
-                return TOP
+        if isinstance(e, (ast.ListComp, ast.GeneratorExp)):
             out = []
-            sub = dict(env)
-            for item in it:
-                self.assign(g.target, item, sub, f)
-                keep = True
-                for cond in g.ifs:
-                    t = self.truth(self.eval(cond, sub, f))
-                    if t is TOP:
-                        return TOP
-                    keep = keep and t
-                if keep:
+            ok = [True]
+
+            def rec(i, sub):
+                if not ok[0]:
+                    return
+                if i == len(e.generators):
                     out.append(self.eval(e.elt, sub, f))
-            return out
+                    return
+                g = e.generators[i]
+                it = self.eval(g.iter, sub, f)
+                if isinstance(it, dict):
+                    it = list(it)
+                if isinstance(it, Obj) and "__iter__" in it.attrs:
+                    it = it.attrs["__iter__"]
+                if not isinstance(it, (list, tuple)):
+                    ok[0] = False
+                    return
+                for item in it:
+                    sub2 = dict(sub)
+                    self.assign(g.target, item, sub2, f)
+                    keep = True
+                    for cond in g.ifs:
+                        t = self.truth(self.eval(cond, sub2, f))
+                        if t is TOP:
+                            ok[0] = False
+                            return
+                        keep = keep and t
+                    if keep:
+                        rec(i + 1, sub2)
+            rec(0, dict(env))
+            return out if ok[0] else TOP
+        if isinstance(e, ast.DictComp):
+            pairs = self.eval(ast.ListComp(elt=ast.Tuple(elts=[e.key, e.value], ctx=ast.Load()), generators=e.generators), env, f)
+            if pairs is TOP:
+                return TOP
+            d = {}
+            for k, v in pairs:
+                try:
+                    hash(k)
+                except TypeError:
+                    return TOP
+                if k is TOP or isinstance(k, (Val, Sym)):
+                    return TOP
+                d[k] = v
+            return d
         if isinstance(e, (ast.ListComp, ast.GeneratorExp, ast.DictComp, ast.SetComp)):
             return TOP
         if isinstance(e, ast.BinOp):
@@ -506,6 +556,8 @@ class Interp:
                 if n == "any":
                     return True if any(t is True for t in ts) else (TOP if any(t is TOP for t in ts) else False)
                 return False if any(t is False for t in ts) else (TOP if any(t is TOP for t in ts) else True)
+            if n == "id" and len(args) == 1 and isinstance(args[0], (Obj, Record, Sized)):
+                return ("id", id(args[0]))
             if n == "callable":
                 v = args[0]
                 if v is TOP:
@@ -591,7 +643,10 @@ class Interp:
                 if m == "values":
                     return list(base.values())
                 if m == "get":
-                    return base.get(args[0], args[1] if len(args) > 1 else None) if isinstance(args[0], (str, int)) else TOP
+                    k = args[0]
+                    if isinstance(k, (str, int)) or (isinstance(k, tuple) and k and k[0] == "id"):
+                        return base.get(k, args[1] if len(args) > 1 else None)
+                    return TOP
                 if m == "copy":
                     return dict(base)
             if isinstance(base, str) and m == "lower":
